@@ -75,7 +75,7 @@ def run(ctx):
     ]
     g = DG.DecorGen(rng)
     n_prog = 3000 if thorough else 130
-    n_var = 56 if thorough else 28
+    n_var = 60 if thorough else 30
     cases = []      # (label, base source, [(style, variant source)])
     for label, base, vs in corpus_cases():
         cases.append((label, base, [("corpus", v) for v in vs], False))
